@@ -17,7 +17,11 @@ RULE = ("direct: (a) exhaustive incidence structures of <= 3 (quick) / <= 4 (tho
         "duplicate first position in a read, master block outside phased_positions, sample missing in the het dict). "
         "CLI: `whatshap phase` on harness.synth data (single sample and --ped trios, --tag PS / HP, with/without "
         "--no-genetic-haplotyping, --output-read-list, read graph thinned so that several components arise, paired reads "
-        "giving interleaved / nested components, optional phased VCF as extra input) with the solver-instance trace. "
+        "giving interleaved / nested components, optional phased VCF as extra input) with the solver-instance trace; plus a "
+        "JUNCTION stream: --internal-downsampling 1..3, single samples and two unrelated samples without --ped, reads engineered "
+        "(nested paired-end 'onion' layers around a centre block) so that the only read linking two groups of variants exceeds the "
+        "cap and is dropped by read selection, several junctions per chromosome, link on the left / right / both sides, control "
+        "junctions whose link read is kept; the oracle is the connectivity of exactly the reads in the trace = read list. "
         "non-trivial = at least two classes or a class with >= 3 members that is not an interval of positions "
         "(interleaved / nested) or a master block merge; distinct = distinct input structure.")
 TRUSTED = [
@@ -400,9 +404,11 @@ def cli_case_terms(spec, res):
                 rl_bad.append((row, r["name"]))
             else:
                 rl.append((rk(row["first0"]), row["phaseset"]))
-        obs = lambda xs: "[" + "; ".join(f"({p}, {i}%Z)" for p, i in xs) + "]"
-        term = (f"({zl(rk.sorted)}, {nl(rk.many(acc))}, {reads_t(reads)}, {optl(mb_spec)}, {assoc_t(comps)}, {obs(calls_in)}, "
-                f"{obs(rl)}, ({len(fam)}, {'true' if genetic else 'false'}, {nl(rk.many(rec['homozygous_positions']))}, {sr}))")
+        obs = lambda xs: "([" + "; ".join(f"({p}, {i}%Z)" for p, i in xs) + "] : list (nat * Z))"
+        term = (f"(({zl(rk.sorted)} : list Z), ({nl(rk.many(acc))} : list nat), ({reads_t(reads)} : list cread), {optl(mb_spec)}, "
+                f"{assoc_t(comps)}, {obs(calls_in)}, "
+                f"{obs(rl)}, ({len(fam)}, {'true' if genetic else 'false'}, ({nl(rk.many(rec['homozygous_positions']))} : list nat), "
+                f"({sr} : list (nat * list srcol))))")
         nclasses = len({b for _, b in comps})
         out.append(dict(term=term, rec=rec, calls_out=calls_out, rl_bad=rl_bad, nclasses=nclasses, ncalls=len(calls_in),
                         nrows=len(rl), mb=mb_spec))
@@ -454,6 +460,14 @@ def check_cli(ctx, specs, label):
             ctx.tally("cli.classes", item["nclasses"])
             ctx.tally("cli.phased_calls_checked", item["ncalls"])
             ctx.tally("cli.readlist_rows_checked", item["nrows"])
+            if spec.get("junctions"):
+                n_links = sum(len(j["links"]) for j in spec["junctions"])
+                used = sum(1 for r in rec["reads"] if "_X" in r["name"])
+                ctx.tally("cli.junction_records")
+                ctx.tally("cli.junction_link_reads_total", n_links)
+                ctx.tally("cli.junction_link_reads_dropped_by_selection", max(0, n_links - used))
+                if n_links - used > 0:
+                    ctx.tally("cli.junction_records_with_dropped_sole_link")
             if item["mb"]:
                 ctx.tally("cli.records_with_master_block")
             if len(rec["family"]) > 1 and not rec["genetic_haplotyping"]:
@@ -521,6 +535,27 @@ def run(ctx):
         specs.append(phase_cli.make_spec(rng, trio=(i % 2 == 0), tag=("PS" if i % 4 < 2 else "HP"), low_cov_gaps=(i % 5 != 0),
                                          k=rng.choice([4, 6, 8, 15]), depth_reads=rng.randint(15, 60)))
     check_cli(ctx, specs, "cli")
+    check_cli(ctx, gen_junction_specs(ctx), "jn")
+
+
+def gen_junction_specs(ctx):
+    """low --internal-downsampling with reads engineered so that the only read linking two groups of variants exceeds
+    the cap and is dropped by read selection (see phase_cli.make_junction_spec); single samples and two unrelated
+    samples without --ped; control junctions whose link read is kept."""
+    rng = ctx.rng
+    specs = []
+    for i in range(ctx.n(36, 300)):
+        k = [1, 2, 3][i % 3]
+        njunc = rng.randint(1, 3)
+        junctions = []
+        for _ in range(njunc):
+            control = k >= 2 and rng.random() < 0.25
+            layers = (k - 1) - (rng.randint(1, k - 1) if control else 0)
+            links = rng.choice([["L"], ["R"], ["L", "R"]])
+            junctions.append({"layers": layers, "bs": rng.choice([3, 3, 4]), "links": links})
+        specs.append(phase_cli.make_junction_spec(rng, k, junctions, family=("unrelated" if i % 4 == 3 else "single"),
+                                                  tag=("PS" if i % 2 == 0 else "HP"), dup=rng.choice([0, 0, 1])))
+    return specs
 
 
 def replay(ctx, data):
